@@ -221,10 +221,6 @@ fn flat_rows<T: Clone, const N: usize>(m: &[[T; N]; N]) -> Vec<T> {
 fn flat_cols<T: Clone, const N: usize>(m: &[[T; N]; N]) -> Vec<T> {
     flat_rows(&tr(m))
 }
-fn unflat<T: Clone, const N: usize>(v: &[T]) -> [[T; N]; N] {
-    std::array::from_fn(|i| std::array::from_fn(|j| v[i * N + j].clone()))
-}
-
 pub trait OMat<E: Clone, const N: usize>: Clone {
     fn from_arr(a: &[[E; N]; N]) -> Self;
     fn to_arr(&self) -> [[E; N]; N];
@@ -279,11 +275,11 @@ fn ident<E: El, const N: usize>() -> [[E; N]; N] {
 // ---------------------------------------------------------------------------------------------------------
 // the programs
 
-const N_OPS: usize = 24;
+const N_OPS: usize = 25;
 const OP_NAMES: [&str; N_OPS] = [
     "new", "index", "index_mut", "transposed", "transpose", "map", "map2", "layout-swap", "resize", "row_array", "row_arrays", "col_array", "col_arrays",
     "col_array->from_row_array", "row_arrays->from_col_arrays", "diagonal+trace", "identity/zero/Default/Zero", "map_rows/map_cols", "slices+gl", "mut-slices",
-    "display (plain and flags)", "from_{row,col}_array(s) of fresh arrays", "Copy-only ops (apply, apply2, with_diagonal, broadcast_diagonal)", "clone/eq",
+    "display (plain and flags)", "from_{row,col}_array(s) of fresh arrays", "Copy-only ops (apply, apply2, with_diagonal, broadcast_diagonal)", "clone/eq", "index-out-of-range",
 ];
 
 macro_rules! step {
@@ -477,6 +473,23 @@ macro_rules! step {
                     let mut b = m.clone();
                     b[i][j] = fr.next();
                     check!(cx, <rm::$Mat<E> as OMat<E, N>>::from_arr(&b) != *r && <cm::$Mat<E> as OMat<E, N>>::from_arr(&b) != *c, "{}: matrices differing at ({},{}) compare equal", E::NAME, i, j);
+                }
+                24 => {
+                    let cand = edge::index_candidates(N);
+                    let small_out = |t: &mut Tape| N + t.below(N * N - N + 1);
+                    let (i, j) = match t.below(4) {
+                        0 => (t.below(N), small_out(t)),
+                        1 => (small_out(t), t.below(N)),
+                        2 => (small_out(t), small_out(t)),
+                        _ => {
+                            let h = cand[N * N + 1 + t.below(cand.len() - N * N - 1)];
+                            let o = cand[t.below(cand.len())];
+                            if t.bool() { (h, o) } else { (o, h) }
+                        }
+                    };
+                    let write = t.bool();
+                    let x: E = fr.next();
+                    edge::index_pair_case_with(cx, i, j, write, r, c, m, x, |r: &rm::$Mat<E>| OMat::<E, N>::to_arr(r), |c: &cm::$Mat<E>| OMat::<E, N>::to_arr(c))?;
                 }
                 _ => {}
             }
